@@ -133,5 +133,6 @@ def main(argv):
             except V.Inconclusive as e:
                 print("SELFTEST %s/%s: inconclusive: %s" % (pid, part["name"], str(e)[:200])); bad += 1
             finally:
-                shutil.rmtree(work, ignore_errors=True)
+                if not os.environ.get("VERIF_KEEP"):
+                    shutil.rmtree(work, ignore_errors=True)
     return 0 if not bad else 2
